@@ -1410,7 +1410,7 @@ pub fn plan_c13(thorough: bool) -> Plan {
     sort_by_bound(&mut cases);
     let mut p = Plan::new(
         cases,
-        "histx: deviation-bounded enumeration of the option space around the default configuration: every configuration with ≤1 (thorough ≤2) option moved to another menu value {commit_concurrency 2,3,5,6,7,16,64,65; warm_up; adversarial device (the I/O workers deliver the completions of a burst newest first); forgetful leaf cache (leaves with an odd / an even page number are never found; every second lookup misses); page cache 0/1 MiB; leaf cache 0/1 MiB; io_workers 2,3; hashtable_buckets 1000 (not a power of two), 65536; another bitbox seed; page_cache_upper_levels 0,1,3 with and without prepopulation; rollback on; no cache at all (page cache 0, leaf cache 0, no pinned levels)} × a fixed set of 8 multi-commit histories (one of them with batches of 700 / 600 / 400 keys over 1500 random keys, every key audited) that span several workers' key ranges (one of them a two-leaf trie whose terminals straddle the range boundaries of 3, 5, 6 and 7 workers), plus the tombstone family (16/32-bucket tables × searched bitbox seeds, pages removed and re-inserted, cold reopen), witnessed batches of 650–1300 warmed-up keys with 1 and 2 workers, one commit right after a cold reopen mixing reads / rewrites / deletes in the first of two value leaves with inserts of new keys elsewhere (leaf cache 0 / 4 MiB, rollback off: some leaves cached by the session's reads, the others fetched by the leaf stage), batches over 8000 keys on a cold store with minimum caches and 1 / 2 / 64 workers (far more seeks than one worker's in-flight page budget), the shared root page, the elision threshold from both sides (19- and 21-key clusters), overflow values, leaf and branch splits/merges, each with a mid-history reopen; every commit is witnessed; oracle: roots, values, proofs for every universe key, witness verification and update replay all equal the reference model (hence equal across configurations). Thread interleavings of the internal workers: every schedule with ≤2 (thorough: all) preemptions of the three merkle update workers of one witnessed commit (worker start, publish child-page roots, hand back the write pass, root-page phase) under the controlled scheduler, two batches (updates / deletes incl. a root-page leaf). Also ALL schedules (a few hundred per batch) of the three beatree leaf-stage workers of one commit whose ranges are three consecutive leaves that all fall below the merge threshold (three batches: two of three values deleted / values shrunk and last leaf deleted / middle leaf deleted), i.e. of the extend-range protocol between neighbouring workers (poll left neighbour, send request, wait for response, wait for left neighbour to conclude, join in completion order): after every schedule the values, root and proofs equal the model and the directory decodes (independent decoder) to exactly the model with every page accounted for. And the branch stage: seed with two bottom branch nodes, one commit deleting 420–440 consecutive keys (≈ 140 leaves) so that the first node falls below the merge threshold and its worker requests nodes from its right neighbour, with three leaf-stage workers running under the scheduler as well (2 batches; every schedule with 0 preemptions quick, ≤1 and a capped ≤2 thorough).",
+        "histx: deviation-bounded enumeration of the option space around the default configuration: every configuration with ≤1 (thorough ≤2) option moved to another menu value {commit_concurrency 2,3,5,6,7,16,64,65; warm_up; hasher ∈ {Sha2, Blake3 with flipped kind labels, Blake3 with the kind in the last bit} (a switchable hasher used by store, reference trie, proof checks and decoder alike); page-pool buffers full of 0xA5 / 0x5A; adversarial device (the I/O workers deliver the completions of a burst newest first); forgetful leaf cache (leaves with an odd / an even page number are never found; every second lookup misses); page cache 0/1 MiB; leaf cache 0/1 MiB; io_workers 2,3; hashtable_buckets 1000 (not a power of two), 65536; another bitbox seed; page_cache_upper_levels 0,1,3 with and without prepopulation; rollback on; no cache at all (page cache 0, leaf cache 0, no pinned levels)} × a fixed set of 11 multi-commit histories (two with sessions on chains of uncommitted overlays that changed the root page — warmed up when warm-up is on —, one with coexisting sessions: two sessions held open while others are begun and finished on the same thread; one of them with batches of 700 / 600 / 400 keys over 1500 random keys, every key audited) that span several workers' key ranges (one of them a two-leaf trie whose terminals straddle the range boundaries of 3, 5, 6 and 7 workers), plus the tombstone family (16/32-bucket tables × searched bitbox seeds, pages removed and re-inserted, cold reopen), witnessed batches of 650–1300 warmed-up keys with 1 and 2 workers, one commit right after a cold reopen mixing reads / rewrites / deletes in the first of two value leaves with inserts of new keys elsewhere (leaf cache 0 / 4 MiB, rollback off: some leaves cached by the session's reads, the others fetched by the leaf stage), batches over 8000 keys on a cold store with minimum caches and 1 / 2 / 64 workers (far more seeks than one worker's in-flight page budget), the shared root page, the elision threshold from both sides (19- and 21-key clusters), overflow values, leaf and branch splits/merges, each with a mid-history reopen; every commit is witnessed; oracle: roots, values, proofs for every universe key, witness verification and update replay all equal the reference model (hence equal across configurations). Thread interleavings of the internal workers: every schedule with ≤2 (thorough: all) preemptions of the three merkle update workers of one witnessed commit (worker start, publish child-page roots, hand back the write pass, root-page phase) under the controlled scheduler, two batches (updates / deletes incl. a root-page leaf). Also ALL schedules (a few hundred per batch) of the three beatree leaf-stage workers of one commit whose ranges are three consecutive leaves that all fall below the merge threshold (three batches: two of three values deleted / values shrunk and last leaf deleted / middle leaf deleted), i.e. of the extend-range protocol between neighbouring workers (poll left neighbour, send request, wait for response, wait for left neighbour to conclude, join in completion order): after every schedule the values, root and proofs equal the model and the directory decodes (independent decoder) to exactly the model with every page accounted for. And the branch stage: seed with two bottom branch nodes, one commit deleting 420–440 consecutive keys (≈ 140 leaves) so that the first node falls below the merge threshold and its worker requests nodes from its right neighbour, with three leaf-stage workers running under the scheduler as well (2 batches; every schedule with 0 preemptions quick, ≤1 and a capped ≤2 thorough).",
     );
     p.budget_s = if thorough { 1700 } else { 55 };
     p.assumptions = vec!["thread interleavings of the internal workers are those the OS scheduler produced in these runs plus the controlled schedules of the schedx engine (see C15 evidence); sequentially-consistent interleavings only".into()];
